@@ -204,6 +204,9 @@ func (w *relWorld) buildNewVoter(s NewVoterSpec, rv world.RelayerView) (sdk.Msg,
 		genuine = false
 	case 5:
 		other, _ := relMember((idx + 2) % relUniverse)
+		if other.Bech32() == rv.Proposer {
+			other, _ = relMember((idx + 3) % relUniverse)
+		}
 		proposer = other.Bech32()
 		genuine = false
 	case 6:
@@ -277,6 +280,7 @@ func (w *relWorld) step(rb RelBlock) ([]relTxResult, *world.TwinResult, *Failure
 	bump := uint64(0)
 	seqNow := rv.Sequence
 	accepted := rv.Accepted
+	registeredNow := map[string]bool{}
 	for ti, rt := range rb.Txs {
 		if ti >= 2 {
 			break
@@ -348,9 +352,13 @@ func (w *relWorld) step(rb RelBlock) ([]relTxResult, *world.TwinResult, *Failure
 			var genuine bool
 			msg, addr, genuine = w.buildNewVoter(rt.NV, rv)
 			rec := m.records[addr]
+			if registeredNow[addr] {
+				rec = nil // already registered by an earlier transaction of this block
+			}
 			if genuine && rec != nil && rec.status == "pending" {
 				res.expect = vAccept
 				res.register = addr
+				registeredNow[addr] = true
 			}
 			if !genuine {
 				res.reason = fmt.Sprintf("forged-registration-%d", rt.NV.Forge%9)
@@ -402,31 +410,7 @@ func (w *relWorld) step(rb RelBlock) ([]relTxResult, *world.TwinResult, *Failure
 
 	// ---- model update (driven by the statement; tx outcomes as observed are compared by the checkers) ----
 	ethOK := tw.With.TxResults[0].Code == 0
-	for i, res := range results {
-		if res.code != 0 {
-			continue
-		}
-		m.accepted = true
-		if res.voted {
-			m.seq++
-			m.randao = sha256sum(m.randao, res.votes.Signature)
-			w.history = append(w.history, acceptedVote{body: *res.body, votes: res.votes, prop: rv.Proposer})
-			f.consume(*res.body)
-		}
-		if res.register != "" {
-			rec := m.records[res.register]
-			if m.accounts[res.register] {
-				rec.status = "offboarding"
-				m.offQ = append(m.offQ, res.register)
-			} else {
-				rec.status = "onboarding"
-				m.onQ = append(m.onQ, res.register)
-				m.accounts[res.register] = true
-			}
-			w.nt["registration"] = true
-		}
-		_ = i
-	}
+	// the execution-block message (membership requests) runs first, then the other transactions
 	if ethOK {
 		for _, a := range rb.Adds {
 			acc, bls := relMember(abs(a) % relUniverse)
@@ -451,6 +435,31 @@ func (w *relWorld) step(rb RelBlock) ([]relTxResult, *world.TwinResult, *Failure
 				m.offQ = append(m.offQ, acc.Bech32())
 			}
 		}
+	}
+	for i, res := range results {
+		if res.code != 0 {
+			continue
+		}
+		m.accepted = true
+		if res.voted {
+			m.seq++
+			m.randao = sha256sum(m.randao, res.votes.Signature)
+			w.history = append(w.history, acceptedVote{body: *res.body, votes: res.votes, prop: rv.Proposer})
+			f.consume(*res.body)
+		}
+		if res.register != "" {
+			rec := m.records[res.register]
+			if m.accounts[res.register] {
+				rec.status = "offboarding"
+				m.offQ = append(m.offQ, res.register)
+			} else {
+				rec.status = "onboarding"
+				m.onQ = append(m.onQ, res.register)
+				m.accounts[res.register] = true
+			}
+			w.nt["registration"] = true
+		}
+		_ = i
 	}
 	// election at the end of the block
 	w.electedNow, w.propRemoved, w.prevProposer = false, false, rv.Proposer
